@@ -132,6 +132,11 @@ class ContractSet:
             if s.abstract:
                 s.recursive = True      # gets a declared symbol; _define_spec adds no axiom
                 continue
+            if "[function]" in (ast.get_docstring(s.node) or ""):
+                # asked for by the spec's author: a declared function symbol with one definitional axiom instead of
+                # inline expansion at every use (large non-recursive definitions used many times)
+                s.recursive = True
+                continue
             seen = set()
             stack = list(s.calls)
             while stack:
